@@ -370,6 +370,18 @@ def narrow_int_cases(rec, hub, rng, n_cases):
                 judge("sum_over", mk().sum_over(la[1:]).values, true.sum(axis=tuple(range(1, len(la)))), la[1:])
             except Exception as e_:
                 rec.violation(MN, "sum_to:raised", {"dtype": np.dtype(dt).name, "exc": repr(e_)[:200]})
+            # the SAME array object summed, then its numbers overwritten in place (x.values[...] = other counts), then summed again: the
+            # second sums are those of the numbers it holds then
+            try:
+                x2 = mk()
+                x2.sum_to(keep), x2.sum_over(la[1:])
+                v2 = np.ascontiguousarray(np.asarray(v).reshape(-1)[::-1]).reshape(shape)
+                true2 = np.vectorize(int, otypes=[object])(v2)
+                x2.values[...] = v2
+                judge("sum_to", x2.sum_to(keep).values, true2.sum(axis=tuple(range(1, len(la)))), f"{keep} after an in-place write")
+                judge("sum_over", x2.sum_over(la[1:]).values, true2.sum(axis=tuple(range(1, len(la)))), f"{la[1:]} after an in-place write")
+            except Exception as e_:
+                rec.violation(MN, "sum_to:raised", {"dtype": np.dtype(dt).name, "exc": repr(e_)[:200], "after": "in-place write"})
 
 
 def run(rec, hub, tier, seed, shard, nshards, budget):
